@@ -25,7 +25,7 @@ REACH_TEXT = {'pulse-filter': ('wave_sim.py', 'previous_t = cbuf[z_mem + z_cur -
 
 
 def plan(tier, seed):
-    n = 60 if tier == 'quick' else 1200
+    n = 300 if tier == 'quick' else 6000
     return [{'n': n} for _ in range(16)]
 
 
